@@ -35,11 +35,12 @@ const (
 	PMixNumNumText // JSON numbers and numeric text ("5000", "12", "3.50") in one column
 	PIntThenFloat  // integers for the first Cut events, floats afterwards: whole blocks / segments of one kind
 	PFloatThenInt  // the reverse
+	PUInt          // non-negative integers only: the engine types such a block as unsigned (own range-index / stats branch)
 	numProfiles
 )
 
 var profileNames = [...]string{"int", "float", "bool", "lowstr", "highstr", "numtext", "mix_num_str", "mix_num_bool",
-	"nullonly", "intbig", "escstr", "width6str", "mix_int_float", "mix_num_numtext", "int_then_float", "float_then_int"}
+	"nullonly", "intbig", "escstr", "width6str", "mix_int_float", "mix_num_numtext", "int_then_float", "float_then_int", "uint"}
 
 func (p Profile) String() string { return profileNames[p] }
 
@@ -123,6 +124,20 @@ func genInt(t *rapid.T) model.Val {
 	}
 }
 
+var uintPool = []int64{0, 1, 2, 7, 10, 200, 201, 204, 301, 404, 500, 503, 255, 256, 65535, 65536, 1 << 31, 1 << 32, (1 << 53) + 1, math.MaxInt64}
+
+// genUint draws a non-negative integer: a block holding only such values is stored with the unsigned number type.
+func genUint(t *rapid.T) model.Val {
+	switch rapid.IntRange(0, 9).Draw(t, "uintKind") {
+	case 0, 1, 2, 3, 4:
+		return model.Int(int64(rapid.IntRange(0, 12).Draw(t, "smallUint")))
+	case 5, 6, 7:
+		return model.Int(rapid.SampledFrom(uintPool).Draw(t, "poolUint"))
+	default:
+		return model.Int(int64(rapid.IntRange(0, 100000).Draw(t, "midUint")))
+	}
+}
+
 func genFloat(t *rapid.T) model.Val {
 	switch rapid.IntRange(0, 9).Draw(t, "floatKind") {
 	case 0, 1, 2, 3:
@@ -154,6 +169,8 @@ func genValue(t *rapid.T, p Profile) model.Val {
 	switch p {
 	case PInt:
 		return genInt(t)
+	case PUInt:
+		return genUint(t)
 	case PIntBig:
 		if rapid.Bool().Draw(t, "big") {
 			return model.Int(rapid.SampledFrom(bigInts).Draw(t, "bigInt"))
